@@ -167,3 +167,11 @@ Proof.
   intros k Hka Hkb. destruct (Ha k Hka) as (x & Hx & ->). destruct (Hb _ Hkb) as (y & Hy & E).
   exact (sides_disjoint l le mde a b W x y Hx Hy E).
 Qed.
+
+(* the premise has models: the two-leaf tree with the labels 0^256 and 1 0^255 *)
+Example sides_premise_sat :
+  let a := Leaf (nl_of_bits (repeat false 256)) [] 1%N in
+  let b := Leaf (nl_of_bits (true :: repeat false 255)) [] 1%N in
+  wf_sub (Node nl_root 1%N 1%N (Some a) (Some b)) = true /\
+  node_labels a <> [] /\ node_labels b <> [].
+Proof. vm_compute. repeat split; discriminate. Qed.
